@@ -91,7 +91,7 @@ def flat_leaves(design, port):
   t = [t for n, d, t in top_c["ports"] if n == port]
   if not t: return [(port, 0, 1)]                      # reset/clk
   t = t[0]
-  flat = port.replace("[", "__").replace("]", "")       # element i of a list port: name__i
+  flat = port.replace("[", "__").replace("]", "").replace(".", "__")  # list element i: name__i; interface member: ifc__member
   if t[0] == "b": return [(flat, 0, t[1])]
   pos, tot = S.positions(t)
   return [(flat + "".join("__" + str(x) for x in path), lo, hi) for path, (lo, hi) in pos.items()]
@@ -103,6 +103,7 @@ def run_sv(text, topmod, design, seq, trace, strict, flat=False):
   sim = d.simulate(topmod, strict_lrm_index_sign=strict)
 
   def split(p):
+    p = p.replace(".", "__")                       # interface member ports are named <ifc>__<member>
     if "[" not in p: return p, ()
     base, rest = p.split("[", 1)
     return base, tuple(int(x) for x in rest.rstrip("]").split("]["))
@@ -235,7 +236,7 @@ def judge(case, stats=None):
 
 @st.composite
 def cases(draw):
-  design = draw(rtl_gen.designs(translatable=True, wide=draw(st.integers(0, 4)) == 0, max_steps=5))
+  design = draw(rtl_gen.designs(translatable=True, wide=draw(st.integers(0, 4)) == 0, max_steps=5, ifcs=draw(st.booleans())))
   seq = draw(rtl_gen.input_seqs(design, ncycles=draw(st.integers(3, 7))))
   return {"design": design, "seq": seq}
 
@@ -247,6 +248,7 @@ def run_shard_for(ctx, mod, quick_n, thorough_n):
   def t(case):
     if ctx.out_of_time(): return
     ctx.count()
+    for f_ in rtl_gen.features(case["design"]): ctx.label(f_)
     stats = {}
     v = mod.judge(case, stats)
     if stats.get("accepted"): ctx.label("accepted")
